@@ -67,6 +67,18 @@ MUTANTS = [
      "    return voltages + decay * (dyn_v + (resistance * masked_inputs))", "    return voltages + decay * dyn_v + (resistance * masked_inputs) * min(decay, 1.0)"),
     ("nrn_alif_threshold_first_only", "C03", 2000, "inferno/neural/functional/neuron_adaptation.py",
      "    return threshold + torch.sum(adaptations, dim=-1)", "    return threshold + adaptations[..., 0]"),
+    ("acc_pos_append_keeps_cache", "C10", 2000, "inferno/neural/modeling.py",
+     "            self._pos.append(value)\n            self._pos_cache.cache_clear()", "            self._pos.append(value)\n            if len(self._pos) == 1: self._pos_cache.cache_clear()"),
+    ("acc_neg_delete_keeps_cache", "C10", 2000, "inferno/neural/modeling.py",
+     "        self._neg = nn.ParameterList()\n        self._neg_cache.cache_clear()", "        self._neg = nn.ParameterList()"),
+    ("updatesome_clears_all", "C10", 2000, "inferno/neural/modeling.py",
+     "                getattr(self.updater, p).clear(**kwargs)", "                self.updater.clear(**kwargs)"),
+    ("bound_lower_mult_wrong_side", "C10", 2000, "inferno/functional/bounding.py",
+     "    return (param - limit) * update", "    return torch.abs(limit - param) * update"),
+    ("bound_sharp_moves_at_limit", "C10", 2000, "inferno/functional/bounding.py",
+     "    diff = limit - param\n    return torch.heaviside(diff, zeros(diff, shape=())) * update", "    diff = limit - param\n    return torch.heaviside(diff + 0.05, zeros(diff, shape=())) * update"),
+    ("bound_smult_range_ignored", "C10", 2000, "inferno/functional/bounding.py",
+     "    return (limit - param) / range * update", "    return (limit - param) / max(range, 1.0) * update"),
     ("resize_keeps_head", "C13", 3000, INFRA,
      "            slices[dim] = slice(tensor.shape[dim] - size, None)\n            return tensor[*slices]", "            slices[dim] = slice(None, size)\n            return tensor[*slices]"),
     ("resize_no_align", "C13", 3000, INFRA,
